@@ -12,6 +12,9 @@ evaluated on the implementation after every edit + `sequence()` is a linear exte
 register-adding prologue prescribes + depth/register depth/incompatibility sets recomputed by own graph code.
 Specifications assumed for networkx (`topological_sort`, `ancestors`, `descendants`, `dag_longest_path_length`) are
 checked on every observed result.
+After every successful `group_one_qubit_gates` of a random walk the statement of `C12.group_is_fuse_of_runs_after_any_history` is
+evaluated on the implementation: every wire's operation sequence must be `fuseWire` (own Python transcription: maximal runs of
+groupable operations -> one wrapper, classes of the last operation first) of what it was before the call.
 """
 import time
 
